@@ -11,6 +11,10 @@ IDENT_RE = z3.Concat(z3.Union(z3.Range('a', 'z'), z3.Re('_')),
 IDENT_CHARS = Chars('abcdefghijklmnopqrstuvwxyz0123456789_', only=True)
 
 
+class StopExploration(BaseException):
+    """Enough counterexamples were collected in this case."""
+
+
 class Violation:
     def __init__(self, label, model, info, pc_size):
         self.label = label
@@ -43,6 +47,9 @@ class Ctx:
         self.concolic = 0
         self.concolic_mismatch = []
         self.concrete = None     # dict name -> python value while re-running a path concretely
+        self.assumptions_used = set()
+        self.max_violations = 3
+        self.stopped = False
 
     # ---- per path
     def new_path(self, prefix):
@@ -55,6 +62,7 @@ class Ctx:
         self.obs = {}
         self.path_checks = []
         self.model = None
+        self.decided = {}
 
     # ---- symbolic inputs (concrete values instead when re-running concolically)
     def _declare(self, name, sort, kind, extra=None):
@@ -123,6 +131,16 @@ class Ctx:
             return True
         if z3.is_false(cond):
             return False
+        cid = cond.get_id()
+        if cid in self.decided:
+            return self.decided[cid][0]
+        r = self._decide(cond)
+        self.decided[cid] = (r, cond)       # keep the term alive: ids are only unique among live terms
+        if z3.is_not(cond):
+            self.decided[cond.arg(0).get_id()] = (not r, cond.arg(0))
+        return r
+
+    def _decide(self, cond):
         i = len(self.decisions)
         if i < len(self.forced):
             b, pend = self.forced[i]
@@ -228,6 +246,8 @@ class Ctx:
         if r == 'sat':
             self.violations.append(Violation(label, model, info, len(self.pc)))
             ok = False
+            if len(self.violations) >= self.max_violations:
+                raise StopExploration()
         elif r == 'unknown':
             self.unknowns.append((label, detail))
             ok = False
@@ -262,6 +282,8 @@ class Ctx:
             self.known.append((known_id, label, kv.model, kv.info))
             return False
         self.violations.append(Violation(label, model, info, len(self.pc)))
+        if len(self.violations) >= self.max_violations:
+            raise StopExploration()
         return False
 
     def path_model(self):
@@ -315,6 +337,10 @@ def explore(fn, max_paths=20000, ctx=None, time_budget_s=None, concolic=None, **
                     concolic(ctx, fn)
             except PathAbort:
                 pass
+            except StopExploration:
+                ctx.stopped = True
+                ctx.exhausted = True      # the case ends with counterexamples; nothing is claimed about the rest
+                break
             except SxUnsupported as e:
                 ctx.unsupported.append(str(e) + ' @ ' + _where())
             d = ctx.decisions
@@ -374,7 +400,7 @@ def concolic_rerun(ctx, fn):
     ctx.concolic += 1
     for k, sv in sym_obs.items():
         exp = _concretize(sv, m)
-        if k not in got or not _same(exp, got[k]):
+        if k not in got or not _same(exp, _concretize(got[k], m)):
             ctx.concolic_mismatch.append({'obs': k, 'expected_from_model': repr(exp)[:200],
                                           'native': repr(got.get(k, got.get('__error__')))[:200],
                                           'inputs': {a: repr(b)[:60] for a, b in conc.items()}})
